@@ -174,6 +174,37 @@ func ruleNatsRemoveBeforeInvoke(c *Ctx) {
 // C18.2/.3/.4: control-line guards, single listener, closed handler
 func ruleNatsPlumbing(c *Ctx) {
 	p := c.P
+	// once Unsubscribe returns, the handler is called no more — whatever the library answers (after a
+	// disconnect it answers with an error): the entry leaves the pending map on every returning path
+	if fn := p.Fn("(*nats.Subscription).Unsubscribe"); fn != nil {
+		reqs, _, _ := natsRoles(p)
+		c.inst(1)
+		sp := &Spec{}
+		sp.Classify = func(t *Tracer, fr *Frame, in ssa.Instruction) []Ev {
+			if call, ok := isBuiltinCall(in, "delete"); ok {
+				if f, _ := fieldLoad(t.Resolve(fr, call.Call.Args[0]).V); f != nil && f == reqs {
+					return []Ev{{Kind: "forget"}}
+				}
+			}
+			if _, ok := in.(*ssa.Return); ok && fr == t.RootFr {
+				return []Ev{{Kind: "return"}}
+			}
+			return nil
+		}
+		tr := runTrace(p, fn, sp)
+		bad := ""
+		n := 0
+		for _, path := range tr.Paths {
+			if !hasKind(path, "return") {
+				continue
+			}
+			n++
+			if !hasKind(path, "forget") {
+				bad = "a returning path of Unsubscribe leaves the subscription in the pending map: messages already queued in the adapter still reach the handler after Unsubscribe returned: " + tr.FmtPath(path)
+			}
+		}
+		c.check(bad == "" && n > 0, fnName(fn), "the handler is forgotten on every returning path of Unsubscribe", p.Pos(fn.Pos()), fmt.Sprintf("%d returning paths", n), bad)
+	}
 	// a reply inbox or an event subscription stays as the library made it until the adapter removes it:
 	// the only method the adapter calls on a nats.go subscription is Unsubscribe (a delivery limit such as
 	// AutoUnsubscribe(1) lets a pre-response use up the quota and drops the real reply)
@@ -974,4 +1005,61 @@ func (p *Prog) writesResponse(f *ssa.Function, depth int) bool {
 		}
 	}
 	return false
+}
+
+// CTX/async-completion (C18, C13): the messaging client's contract is that
+// the completion of SendRequest runs on another goroutine, never on the
+// caller's stack — callers send requests with their own mutex held (the
+// cache worker holds the event subscription's mutex in handleQueryEvent) and
+// the completion takes that mutex. In the adapter's SendRequest every call
+// of the completion parameter made by the function itself is a go statement.
+func ruleAsyncCompletion(c *Ctx) {
+	p := c.P
+	fn := p.Fn("(*nats.Client).SendRequest")
+	if fn == nil {
+		c.undecided("(*nats.Client).SendRequest", "anchor", "-", "not found")
+		return
+	}
+	var cb *ssa.Parameter
+	for _, prm := range fn.Params {
+		if _, ok := prm.Type().Underlying().(*types.Signature); ok {
+			cb = prm
+		}
+	}
+	if cb == nil {
+		c.undecided("(*nats.Client).SendRequest", "anchor", "-", "no completion parameter")
+		return
+	}
+	n := 0
+	// the function body and the helpers it calls synchronously with the completion as argument
+	var scan func(f *ssa.Function, prm ssa.Value, depth int)
+	scan = func(f *ssa.Function, prm ssa.Value, depth int) {
+		if depth > 3 {
+			return
+		}
+		for _, call := range callsIn(f) {
+			com := call.Common()
+			if com.Value == prm && !com.IsInvoke() {
+				n++
+				c.inst(1)
+				_, isGo := call.(*ssa.Go)
+				c.check(isGo, fnName(f), "the completion is never run on the caller's stack", p.InstrPos(call), "go statement", "the completion is called synchronously inside SendRequest: a caller that sends with its own mutex held (handleQueryEvent holds the event subscription's mutex; the completion takes it) deadlocks on itself")
+				continue
+			}
+			if _, isGo := call.(*ssa.Go); isGo {
+				continue
+			}
+			if sf := com.StaticCallee(); sf != nil && p.isRepoFn(sf) && sf.Parent() == nil {
+				for i, a := range com.Args {
+					if a == prm && i < len(sf.Params) {
+						scan(sf, sf.Params[i], depth+1)
+					}
+				}
+			}
+		}
+	}
+	scan(fn, cb, 0)
+	if n == 0 {
+		c.viol(fnName(fn), "the completion is never run on the caller's stack", p.Pos(fn.Pos()), "no direct call of the completion found (the immediate-error paths were expected)")
+	}
 }
